@@ -197,3 +197,19 @@ Proof.
   - rewrite cmp_ds by exact Hc. ring.
   - rewrite cmp_sum, cmp_ds by exact Hc. ring.
 Qed.
+
+(* the remainder of an unforced push lies between nothing and the offer, component-wise *)
+Lemma t_push_reply_within t v c : conserved c -> wet v ->
+  0 <= cmp c (snd (t_push t v false)) <= cmp c v.
+Proof.
+  intros Hc Hw. rewrite t_push_reply_cmp.
+  assert (R : 0 <= Qmax (vol v - Qmax (t_cap t - vol (t_sto t)) 0) 0 <= vol v).
+  { pose proof (proj1 Hw SVol I) as Hv. cbn [cmp] in Hv.
+    rewrite <- t_push_reply_vol. apply t_push_reply_range; exact Hv. }
+  apply change_within; [exact Hc | exact (proj1 Hw) | exact R | exact (proj2 Hw)].
+Qed.
+Lemma t_pull_nonneg t v : nonneg (t_sto t) -> 0 <= v ->
+  nonneg (t_sto (fst (t_pull t v))) /\ nonneg (snd (t_pull t v)).
+Proof.
+  intros Hn Hv. split; intros c Hc; destruct (t_pull_spec t v c Hc Hn Hv) as (H1 & H2 & H3); [rewrite H2|]; lra.
+Qed.
